@@ -688,6 +688,9 @@ class Screen(BaseScreen, RealTerminal):
                     raise ValueError(insertcs)
 
                 if isinstance(inserttext, bytes):
+                    if insertcs != "U":
+                        # unprintable bytes are replaced like in every other run
+                        inserttext = inserttext.translate(UNPRINTABLE_TRANS_TABLE)
                     inserttext = inserttext.decode(encoding)
 
                 output.extend(("\x08" * back, ias))  # pylint: disable=used-before-assignment  # defined in `if row`
